@@ -48,7 +48,7 @@ def generate(rng, tier):
                           'halg': rng.choice([8, 8, 10, 9, 11, 2, 1]),
                           'data': bytes(rng.randrange(256) for _ in range(rng.choice([0, 1, 33, 500]))).hex(),
                           'text': rng.choice(['', 'x', 'a\nb\n', 'a\r\nb', 'ünï ☃']),
-                          'fmt': rng.choice(['new', 'old'])})
+                          'fmt': rng.choice(['new', 'old']), 'uid_empty': rng.random() < 0.1})
     return {'config': {'keys': keys, 'start_us': 1_600_000_000_000_000 + rng.choice([0, 500_000])}, 'steps': steps}
 
 
@@ -261,7 +261,7 @@ def execute(case, ctx):
 
 def _ref_sign(pgpy, step, case, ctx):
     created = 1_500_000_000
-    uid = b'Reference Peer <ref@example.org>'
+    uid = b'Reference Peer <ref@example.org>' if not step.get('uid_empty') else b''
     body, alg, secret = make_ref_key(step['keykind'], created, uid, case['run_seed'], label=step['id'])
     pub = rkeys.parse_pub(body)
     subkeys = []
